@@ -680,7 +680,10 @@ class Problem(  # type: ignore[misc]
 
         :param trajectory_constraint: The expression added to the `Problem`.
         """
-        if constraint.is_and() or constraint.is_forall():
+        if constraint.is_bool_constant():
+            # e.g. a constraint that a compiler simplified to a constant
+            pass
+        elif constraint.is_and() or constraint.is_forall():
             for arg in constraint.args:
                 assert (
                     arg.is_sometime()
@@ -697,7 +700,15 @@ class Problem(  # type: ignore[misc]
                 or constraint.is_at_most_once()
                 or constraint.is_always()
             ), "trajectory constraint not in the correct form"
-        self._trajectory_constraints.append(constraint.simplify())
+        simplified = constraint.simplify()
+        if simplified.is_true():
+            # a constraint that simplifies to true always holds: there is nothing to store
+            return
+        if simplified.is_false():
+            # keep an unsatisfiable constraint in the form every consumer expects
+            em = self._env.expression_manager
+            simplified = em.Always(em.FALSE())
+        self._trajectory_constraints.append(simplified)
 
     def clear_trajectory_constraints(self):
         """Removes the trajectory_constraints."""
